@@ -490,6 +490,7 @@ def plainOf (S : Sys) (ke : String) (e : Eqn) (ku : String) (s : Single) : Singl
     icPDE := s.icPDE.map fun m => { m with w := weightFor S.weights.ic ku },
     boundary := s.boundary.map fun m => { m with w := weightFor S.weights.boundary ku },
     norm := s.norm.map fun q => (weightFor S.weights.norm ku, q.2.1, q.2.2.1, q.2.2.2),
+    normNS := s.normNS.map fun q => (weightFor S.weights.norm ku, q.2.1, q.2.2.1, q.2.2.2.1, q.2.2.2.2),
     obs := s.obs.map fun m => { m with w := weightFor S.weights.obs ku } }
 
 theorem specMseOpt_scale (w : Rat) (m : Option MseIn) (sel : Nat → Params) :
@@ -517,6 +518,15 @@ theorem specNorm_scale (w : Rat) (nm : Option (Rat × Rat × (List Rat → Param
   | none => simp [specNorm]
   | some q => simp [specNorm]
 
+theorem specNormNS_scale (w : Rat)
+    (nm : Option (Rat × Rat × (List Rat → Params → Val) × List (List Rat) × List (List Rat)))
+    (sel : Nat → Params) :
+    specNormNS (nm.map fun q => (w, q.2.1, q.2.2.1, q.2.2.2.1, q.2.2.2.2)) sel =
+      w * specNormNS (nm.map fun q => (1, q.2.1, q.2.2.1, q.2.2.2.1, q.2.2.2.2)) sel := by
+  cases nm with
+  | none => simp [specNormNS]
+  | some q => simp [specNormNS, normNSOf]
+
 theorem specIcODE_scale (w : Rat) (ic : Option (Rat × (List Rat → Params → Val) × List Rat))
     (p : Params) (rows : Rows) :
     specIcODE (ic.map fun q => (w, q.2.1, q.2.2)) p rows =
@@ -543,7 +553,8 @@ theorem sys_one_one_eq_plain (p : Params) (S : Sys) (ke : String) (e : Eqn) (ku 
       List.foldr_nil, add_zero, specTerms, plainOf, unitSingle, eqMse, specDyn]
     rw [specMse_weight (weightFor S.weights.dyn ke), specIcODE_scale (weightFor S.weights.ic ku),
       specMseOpt_scale (weightFor S.weights.ic ku), specMseSum_scale (weightFor S.weights.boundary ku),
-      specNorm_scale (weightFor S.weights.norm ku), specMseOpt_scale (weightFor S.weights.obs ku)]
+      specNorm_scale (weightFor S.weights.norm ku), specNormNS_scale (weightFor S.weights.norm ku),
+      specMseOpt_scale (weightFor S.weights.obs ku)]
     simp only [mul_add]
   simp only [Except.map, hT]
 
@@ -558,7 +569,7 @@ def nuOf (q : Params) : Rat := ((get? "nu" q).getD []).getD 0 0
 def s0 : Single :=
   { paramRows := none, obsRows := none, het := none, dyn := none, icODE := none,
     icPDE := some { w := 1, f := fun pt q => [pt.getD 0 0 - nuOf q], xs := [[1], [3]] },
-    boundary := [], norm := none, obs := none }
+    boundary := [], norm := none, normNS := none, obs := none }
 
 /-- two equations, one unknown, a parameter batch on `nu`, dictionary weights on the equations -/
 def S0 : Sys :=
